@@ -503,7 +503,7 @@ func (tree *Rtree) nearestNeighbor(p geom.Point, n *node, d float64,
 	nearest geom.Geom) (geom.Geom, float64) {
 	if n.leaf {
 		for _, e := range n.entries {
-			dist := math.Sqrt(minDist(p, e.bb))
+			dist := minDist(p, e.bb)
 			if dist < d {
 				d = dist
 				nearest = e.obj
@@ -564,7 +564,7 @@ func (tree *Rtree) nearestNeighbors(k int, p geom.Point, n *node,
 	dists []float64, nearest []geom.Geom) ([]geom.Geom, []float64) {
 	if n.leaf {
 		for _, e := range n.entries {
-			dist := math.Sqrt(minDist(p, e.bb))
+			dist := minDist(p, e.bb)
 			dists, nearest = insertNearest(k, dists, nearest, dist, e.obj)
 		}
 	} else {
